@@ -313,6 +313,34 @@ pub fn run(ctx: &Ctx) -> Report {
             }
         }
     }
+    // build() from the destructor of a caller's thread-local, while the thread is being torn down (child processes:
+    // a panic inside a destructor that runs during teardown may abort, and the harness's own thread-locals are gone)
+    {
+        let exe = std::env::current_exe().ok();
+        for rep in 0..ctx.tier.pick(4u64, 40) {
+            st.eval();
+            let threads = [3usize, 8, 16, 32][rep as usize % 4];
+            let spec = format!("teardown:{threads}:{}", mix(ctx.seed, 0x7ea2 + rep));
+            let j = serde_json::json!({"fam": "thread-teardown", "threads": threads, "spec": spec});
+            match exe.as_ref().and_then(|e| std::process::Command::new(e).arg("c10-child").arg(&spec).output().ok()) {
+                None => st.inconclusive("thread-teardown family: cannot spawn child".into()),
+                Some(o) => {
+                    let text = String::from_utf8_lossy(&o.stdout).to_string();
+                    let lines: Vec<&str> = text.lines().filter_map(|l| l.strip_prefix("TEARDOWN ")).collect();
+                    if !o.status.success() || !text.contains("END") {
+                        st.violation(ID, "abnormal-termination", format!("a process whose {threads} threads build a QR code from a thread-local destructor while they wind down ended with {} ({})", o.status, String::from_utf8_lossy(&o.stderr).lines().last().unwrap_or("")), j);
+                    } else if let Some(p) = lines.iter().find(|l| l.starts_with("panic")) {
+                        st.violation(ID, "panic", format!("build() called from the destructor of a caller's thread-local while the thread was being torn down panicked: {}", &p[5..]), j);
+                    } else if lines.len() != threads {
+                        st.inconclusive(format!("thread-teardown family: {} of {threads} destructors reported", lines.len()));
+                    } else {
+                        st.count("builds_from_thread_local_destructors_during_teardown", lines.len() as u64);
+                        st.distinct(mix(0x7ea2, rep));
+                    }
+                }
+            }
+        }
+    }
     let mut extra = vec![];
     if ctx.tier == Tier::Thorough {
         let r = sanit::miri_stage(ctx, "c10", 16);
@@ -323,10 +351,10 @@ pub fn run(ctx: &Ctx) -> Report {
     }
     let mut rep = Report::new(
         st,
-        "jobs = all 480 capacity thresholds +-2 under rotating version options {auto, 1, vmin-1, vmin, vmin+1, 40} and forced/automatic mode, level, mask; every (version, level, mode) cell at capacity with automatic mask; special lengths {0,1,2,7089..7091,8000,65535,65536,...} x 13 payload generators (all-zero, all-0xFF, pad look-alikes, mode-indicator look-alikes, real-world tokens and magic prefixes, zero runs, periodic, alternating extremes, ...); crafted byte payloads at every (version, level): data area equal to each of the 8 mask patterns and their complements, uniform, finder look-alike rows/columns, stripes, 2x2 blocks (24 targets: every counter of the scoring code at its extreme) and 8 per-block codeword shapes (all padding pattern, zero blocks, identical blocks, leading zeros); arbitrary strings of length 0..8000 with random option combinations (forced modes only when their alphabet contains the input); every 8th build follows a caught out-of-contract panic (forced mode on a foreign character) on the same thread; each build runs under catch_unwind in a profile with overflow-checks and debug-assertions enabled; outcome must be Ok / Err(EncodedData) / Err(SpecifiedVersion); inputs of 20,000 .. 4,000,000 bytes (thorough: up to 16,000,000) are built in child processes on a thread with the default 2 MiB stack (stack exhaustion or allocation failure = abnormal termination); watchdog re-runs any job slower than 20 s in a child process (120 s limit); thorough adds two Miri stages (240 small builds+renders; 16 builds at versions 5..40, one interpreter process each); distinct key = (options, len, payload hash); every case non-trivial",
+        "jobs = all 480 capacity thresholds +-2 under rotating version options {auto, 1, vmin-1, vmin, vmin+1, 40} and forced/automatic mode, level, mask; every (version, level, mode) cell at capacity with automatic mask; special lengths {0,1,2,7089..7091,8000,65535,65536,...} x 13 payload generators (all-zero, all-0xFF, pad look-alikes, mode-indicator look-alikes, real-world tokens and magic prefixes, zero runs, periodic, alternating extremes, ...); crafted byte payloads at every (version, level): data area equal to each of the 8 mask patterns and their complements, uniform, finder look-alike rows/columns, stripes, 2x2 blocks (24 targets: every counter of the scoring code at its extreme) and 8 per-block codeword shapes (all padding pattern, zero blocks, identical blocks, leading zeros); arbitrary strings of length 0..8000 with random option combinations (forced modes only when their alphabet contains the input); every 8th build follows a caught out-of-contract panic (forced mode on a foreign character) on the same thread; each build runs under catch_unwind in a profile with overflow-checks and debug-assertions enabled; outcome must be Ok / Err(EncodedData) / Err(SpecifiedVersion); inputs of 20,000 .. 4,000,000 bytes (thorough: up to 16,000,000) are built in child processes on a thread with the default 2 MiB stack (stack exhaustion or allocation failure = abnormal termination); build() is also called from the destructors of callers' thread-locals while 3..32 threads of a child process wind down (registered before the thread's first build, after it, or without one); watchdog re-runs any job slower than 20 s in a child process (120 s limit); thorough adds two Miri stages (240 small builds+renders; 16 builds at versions 5..40, one interpreter process each); distinct key = (options, len, payload hash); every case non-trivial",
     );
-    rep.expected_sets = vec![("cells_at_capacity", 480), ("option_shapes", 16), ("generators", 11), ("crafted_targets", 24), ("crafted_shapes", 11), ("version_level_built", 160)];
-    rep.required_sets = vec![("cells_at_capacity", 480), ("option_shapes", 16), ("generators", 11), ("crafted_targets", 24), ("crafted_shapes", 11)];
+    rep.expected_sets = vec![("cells_at_capacity", 480), ("option_shapes", 16), ("generators", 13), ("crafted_targets", 24), ("crafted_shapes", 11), ("version_level_built", 160)];
+    rep.required_sets = vec![("cells_at_capacity", 480), ("option_shapes", 16), ("generators", 13), ("crafted_targets", 24), ("crafted_shapes", 11)];
     rep.min_evaluations = 20_000;
     rep.extra = extra;
     rep.assumptions = vec![
@@ -389,9 +417,88 @@ fn huge_child(spec: &str) -> i32 {
     }
 }
 
+/// What a caller may keep in a thread-local of its own: a value whose destructor builds a QR code (a "last words"
+/// logger, a metrics flush). The destructor runs while the thread is being torn down.
+struct LastWords {
+    input: Vec<u8>,
+    level: usize,
+    tx: std::sync::mpsc::Sender<String>,
+}
+
+impl Drop for LastWords {
+    fn drop(&mut self) {
+        let input = self.input.clone();
+        let level = self.level;
+        // no harness thread-local may be touched here (they may be gone already): plain catch_unwind, no panic capture
+        let r = std::panic::catch_unwind(move || {
+            let mut b = fast_qr::QRBuilder::new(input);
+            b.ecl(adapter::LEVELS[level]);
+            b.build().map(|q| q.size)
+        });
+        let _ = self.tx.send(match r {
+            Ok(Ok(size)) => format!("ok {size}"),
+            Ok(Err(_)) => "err".to_string(),
+            Err(p) => format!("panic {}", p.downcast_ref::<String>().cloned().or_else(|| p.downcast_ref::<&str>().map(|s| s.to_string())).unwrap_or_default()),
+        });
+    }
+}
+
+thread_local! {
+    static LAST_WORDS: std::cell::RefCell<Option<LastWords>> = const { std::cell::RefCell::new(None) };
+}
+
+/// child side of the thread-teardown family: `vcheck c10-child teardown:<threads>:<seed>`. Every thread parks a
+/// `LastWords` in its thread-local (before its first build, after it, or without building at all) and ends; the
+/// destructors build while the threads wind down. Prints one "TEARDOWN <outcome>" line per thread.
+fn teardown_child(spec: &str) -> i32 {
+    let mut it = spec.split(':').skip(1);
+    let threads: usize = it.next().and_then(|x| x.parse().ok()).unwrap_or(8);
+    let seed: u64 = it.next().and_then(|x| x.parse().ok()).unwrap_or(1);
+    std::panic::set_hook(Box::new(|_| {}));
+    let (tx, rx) = std::sync::mpsc::channel::<String>();
+    let mut hs = Vec::new();
+    for t in 0..threads {
+        let tx = tx.clone();
+        hs.push(std::thread::spawn(move || {
+            let mut rng = oracle::rng::Rng::new(mix(seed, t as u64));
+            let class = rng.below(3);
+            let len = 1 + rng.below(if t % 5 == 0 { 2000 } else { 60 });
+            let words = LastWords { input: crate::job::gen_payload(class, len, rng.below(crate::job::GEN_COUNT), rng.next_u64()), level: rng.below(4), tx };
+            let build_once = || {
+                let _ = std::panic::catch_unwind(|| fast_qr::QRBuilder::new("https://example.com/").build().is_ok());
+            };
+            match t % 3 {
+                0 => {
+                    // the caller's thread-local is first touched BEFORE the thread's first build: it is destroyed after
+                    // any thread-local the crate registers later
+                    LAST_WORDS.with(|w| *w.borrow_mut() = Some(words));
+                    build_once();
+                }
+                1 => {
+                    build_once();
+                    LAST_WORDS.with(|w| *w.borrow_mut() = Some(words));
+                }
+                _ => LAST_WORDS.with(|w| *w.borrow_mut() = Some(words)),
+            }
+        }));
+    }
+    drop(tx);
+    for h in hs {
+        let _ = h.join();
+    }
+    for line in rx.iter() {
+        println!("TEARDOWN {line}");
+    }
+    println!("END");
+    0
+}
+
 pub fn child_main(arg: &str) -> i32 {
     if arg.starts_with("huge:") {
         return huge_child(arg);
+    }
+    if arg.starts_with("teardown:") {
+        return teardown_child(arg);
     }
     let v: serde_json::Value = match serde_json::from_str(arg) {
         Ok(v) => v,
